@@ -1745,6 +1745,66 @@ fn tls_config_table(rep: &mut SearchReport) -> Result<(), String> {
     }
     *rep.stats.labels.entry("tls_client_config_rows".to_string()).or_insert(0) += 2 * 3 * client_cases.len() as u64;
 
+    // ---- configurations neither API accepts: the C call reports the same-named error
+    // (dns_name, peer certificate file, local certificate file, key file)
+    let bad_cases: [(&str, &str, &str, &str); 6] = [
+        ("bad name", "ca1.pem", "client_operator.pem", "client_operator.key"),
+        ("test.com", "does_not_exist.pem", "client_operator.pem", "client_operator.key"),
+        ("test.com", "ca1.pem", "does_not_exist.pem", "client_operator.key"),
+        ("test.com", "ca1.pem", "client_operator.pem", "does_not_exist.key"),
+        ("test.com", "ca1.pem", "client_operator.pem", "client_operator.pem"),
+        ("test.com", "client_operator.key", "client_operator.pem", "client_operator.key"),
+    ];
+    for (dns, peer, local, key) in bad_cases {
+        let case = json!({"table": "tls_config", "c_abi_creates": "client", "rejected": true, "dns_name": dns, "peer_cert_path": peer, "local_cert_path": local, "private_key_path": key});
+        let dir = crate::net::c09::certs_dir();
+        let rust = rodbus::client::TlsClientConfig::full_pki(Some(dns.to_string()), &dir.join(peer), &dir.join(local), &dir.join(key), None, min_tls(12));
+        let want = match &rust {
+            Ok(_) => "Ok".to_string(),
+            Err(e) => {
+                let n = format!("{:?}", e);
+                let n = n.split('(').next().unwrap().to_string();
+                if n == "BadConfig" {
+                    "BadTlsConfig".to_string()
+                } else {
+                    n
+                }
+            }
+        };
+        let dns_c = cstr(dns);
+        let peer_c = cstr(dir.join(peer).to_str().unwrap());
+        let local_c = cstr(dir.join(local).to_str().unwrap());
+        let key_c = cstr(dir.join(key).to_str().unwrap());
+        let pw = cstr("");
+        let tls_cfg = ffi::TlsClientConfig {
+            dns_name: dns_c.as_ptr(),
+            peer_cert_path: peer_c.as_ptr(),
+            local_cert_path: local_c.as_ptr(),
+            private_key_path: key_c.as_ptr(),
+            password: pw.as_ptr(),
+            min_tls_version: ffi::MinTlsVersion::V12.into(),
+            certificate_mode: ffi::CertificateMode::AuthorityBased.into(),
+            allow_server_name_wildcard: false,
+        };
+        let states: StateLog = Default::default();
+        let mut out: *mut rodbus_ffi::ClientChannel = std::ptr::null_mut();
+        let host = cstr("127.0.0.1");
+        let rc = unsafe {
+            ffi::rodbus_client_channel_create_tls(frt.0, host.as_ptr(), 1, 4, retry_strategy(5000, 5000), tls_cfg, decode_level(0, 0, 0), state_listener(&states), &mut out)
+        };
+        if !out.is_null() {
+            unsafe { ffi::rodbus_client_channel_destroy(out) };
+        }
+        let got = if rc == 0 { "Ok".to_string() } else { format!("{:?}", ffi::ParamError::from(rc)) };
+        rep.stats.evaluations += 1;
+        if got != want {
+            fail(rep, format!("TLS configuration {}: the Rust API gives {}, the C call reports {}", case, want, got), case);
+            return Ok(());
+        }
+        rep.stats.nontrivial_total += 1;
+        rep.stats.distinct.insert(crate::runner::hash_of(&format!("{}", case)));
+    }
+
     // ---- the C ABI creates the server
     // (mode, authz, configured peer certificate, local certificate, certificate the client presents, valid)
     let server_cases: [(&str, bool, &str, &str, &str, bool); 8] = [
